@@ -42,6 +42,22 @@ def run(rep, tier, seed):
                 "create_file 0 %s 73" % hexs("durable dir/empty.txt"), "drop_file 73",
                 "open_file 0 %s 74" % hexs("durable one.bin"), "write_pat 74 %d 13" % rng.range(1, 300), "flush 74", "seek 74 start 3", "write_pat 74 5 14", "drop_file 74"]
         scripts.append(head + g.lines + tail + ["drop_all", "unmount"])
+    # log rotation over two mounts: a file is emptied (truncate at 0) and closed, the volume unmounted; the next session writes it
+    # again and flushes, then OTHER files are created and written (on FAT12/16 the allocation search restarts at the first
+    # cluster after a mount): what was flushed must still be there after every one of those writes
+    for conf in (confs[:3] if tier == "quick" else confs) + big[:1]:
+        hx = hexs
+        for variant in range(2):
+            rot = ["dev %d 0" % conf[1], "wlog 0", conf[2], "pages", "wlog 1", "mount 1 0 lossy",
+                  "create_file 0 %s 1" % hx("LOG.TXT"), "write_pat 1 %d 21" % (600 if variant == 0 else 5000), "flush 1", "seek 1 start 0", "truncate 1", "flush 1", "drop_file 1"]
+            if variant == 1:
+                rot += ["create_file 0 %s 2" % hx("kept.bin"), "write_pat 2 900 22", "drop_file 2"]
+            rot += ["drop_all", "unmount", "mount 1 0 lossy",
+                   "open_file 0 %s 3" % hx("LOG.TXT"), "write_pat 3 %d 23" % (80 if variant == 0 else 1300), "flush 3", "drop_file 3",
+                   "create_file 0 %s 4" % hx("OTHER.BIN"), "write_pat 4 2000 24", "flush 4", "drop_file 4",
+                   "create_dir 0 %s 5" % hx("newdir"), "create_file 5 %s 6" % hx("inner.txt"), "write_pat 6 700 25", "drop_file 6",
+                   "open_file 0 %s 7" % hx("LOG.TXT"), "read_all 7 10000", "drop_all", "unmount"]
+            scripts.append(rot)
     flags = ("tree", "crash") if tier == "quick" else ("tree", "crash")
     judged = sessions.run_judged(scripts, flags=flags, shards=16)
     total_checks = 0; flushes = 0
